@@ -4040,13 +4040,14 @@ impl Collection {
                     // order is preserved, matching the other branches.
                     let mut rt: UniqueVec<DocumentId> =
                         UniqueVec::with_capacity(Self::reserve_hint(limit));
+                    // The scan walks in key order, not id order, so stopping
+                    // after `limit` hits would keep the smallest keys rather
+                    // than the smallest (or largest) ids. Collect the full
+                    // match set; the caller sorts and trims it.
                     index.try_range_query_ids(filter, order.is_descending(), |ids| {
                         for id in ids {
                             if candidates.is_none_or(|s| s.contains(id)) {
                                 rt.push(*id);
-                                if limit > 0 && rt.len() >= limit {
-                                    return false;
-                                }
                             }
                         }
                         true
